@@ -213,7 +213,7 @@ struct MCase {
 const DATA: [f64; 7] = [-2.0, -1.0, 0.0, 0.1, 0.5, 1.0, 3.0];
 
 fn run_m<T: Fl>(c: &MCase, lx: &mut Local) {
-    let off = [0.0, 1e3, 1e6][c.off as usize];
+    let off = [0.0, 1e3, 1e6, 1e9, 1e12, 1e15][c.off as usize];
     let mut xs: Vec<T> = c.digits.iter().map(|&d| T::of(DATA[d as usize] + off)).collect();
     // every 4th data set (by digit sum) gets one non-finite element: the bulk and the single form must still agree
     let dsum: usize = c.digits.iter().map(|&d| d as usize).sum();
@@ -266,8 +266,19 @@ fn run_axis(c: &ACase, lx: &mut Local) {
     let di: Vec<i64> = (0..n).map(|i| ((i * 7 + c.fill * 3) % 11) as i64 - 4).collect();
     let wi: Vec<i64> = (0..ll).map(|k| ((k + c.fill) % 4) as i64 + if k == 0 { 1 } else { 0 }).collect();
     // floats: within the summation bound of each other
-    let df: Vec<f64> = (0..n).map(|i| DATA[(i * 3 + c.fill) % 7] + if c.fill % 2 == 1 { 1e6 } else { 0.0 }).collect();
-    let wf: Vec<f64> = (0..ll).map(|k| [0.0, 0.25, 1.0, 3.0][(k + c.fill) % 4] + if k == ll - 1 { 0.5 } else { 0.0 }).collect();
+    let mut df: Vec<f64> = (0..n).map(|i| DATA[(i * 3 + c.fill) % 7] + if c.fill % 2 == 1 { 1e6 } else { 0.0 }).collect();
+    let mut wf: Vec<f64> = (0..ll).map(|k| [0.0, 0.25, 1.0, 3.0][(k + c.fill) % 4] + if k == ll - 1 { 0.5 } else { 0.0 }).collect();
+    // special fills: a negative weight; a non-finite observation sitting on an exactly-zero weight
+    let special = c.fill >= 4;
+    if c.fill == 4 {
+        wf[0] = -0.75;
+    }
+    if c.fill >= 5 {
+        wf[0] = 0.0;
+        for lane in &lanes {
+            df[lane[0]] = if c.fill == 5 { f64::INFINITY } else { f64::NAN };
+        }
+    }
     lx.single(|lx| {
         let hi = Host::new(&c.shape, &di, &c.layout, -99);
         let hwi = Host1::new(&wi, -1, 1, 55);
@@ -322,6 +333,13 @@ fn run_axis(c: &ACase, lx: &mut Local) {
                         // conditioning of the variance: sum w x^2 relative to W - ddof
                         let swx2: f64 = lv.iter().zip(&wf).map(|(x, w)| w * x * x).sum();
                         let bv = 32.0 * (nn + 4.0) * u * swx2 / (wtot - ddof).abs();
+                        if special {
+                            // compare as is: both must be NaN, or equal within the tolerance
+                            let same = |a: f64, b: f64, tol: f64| (a.is_nan() && b.is_nan()) || a == b || (a - b).abs() <= tol;
+                            lx.check(same(s1, fs[j], bs) && same(m1, fm[j], bm), "C18/weighted-sum-axis-vs-lane", || format!("special weights {:?} (fill {}): weighted_sum_axis / weighted_mean_axis lane {} = {:e} / {:e} but the lane routines give {:e} / {:e}: {:?}", wf, c.fill, j, fs[j], fm[j], s1, m1, c));
+                            lx.check(same(v1, fv[j], bv.abs().max(1e-9)) && same(sd1, fsd[j], 1e-6), "C18/weighted-var-axis-vs-lane", || format!("special weights {:?} (fill {}): weighted_var_axis / weighted_std_axis(ddof {}) lane {} = {:e} / {:e} but the lane routines give {:e} / {:e}: {:?}", wf, c.fill, ddof, j, fv[j], fsd[j], v1, sd1, c));
+                            continue;
+                        }
                         lx.check((s1 - fs[j]).abs() <= bs, "C18/weighted-sum-axis-vs-lane", || format!("weighted_sum_axis lane {} = {:e} but weighted_sum of the lane = {:e}: {:?}", j, fs[j], s1, c));
                         lx.check((m1 - fm[j]).abs() <= bm, "C18/weighted-mean-axis-vs-lane", || format!("weighted_mean_axis lane {} = {:e} but weighted_mean of the lane = {:e}: {:?}", j, fm[j], m1, c));
                         lx.check((v1 - fv[j]).abs() <= bv, "C18/weighted-var-axis-vs-lane", || format!("weighted_var_axis(ddof {}) lane {} = {:e} but weighted_var of the lane = {:e} (tolerance {:e}): {:?}", ddof, j, fv[j], v1, bv, c));
@@ -409,10 +427,10 @@ fn main() {
     );
     rep.dispatch_chunk = 64;
     let mmax = rep.cfg.pick(5, 6);
-    let mcases = (1..=mmax).flat_map(|n| sequences(n, 7)).flat_map(|d| (0..3u8).flat_map(move |off| { let d = d.clone(); (0..2u8).map(move |ty| MCase { digits: d.clone(), off, ty }) }));
+    let mcases = (1..=mmax).flat_map(|n| sequences(n, 7)).flat_map(|d| (0..6u8).flat_map(move |off| { let d = d.clone(); (0..2u8).map(move |ty| MCase { digits: d.clone(), off, ty }) }));
     rep.run_sub(
         "central-moments-bulk-vs-single",
-        &format!("every array of length 1..={} over {:?} at offsets 0, 1e3, 1e6, f64 and f32, strides {{1,-2}}: central_moments(p)[k] vs central_moment(k) bit for bit for every k <= p, p = 0..=10; every 4th data set contains one NaN / +inf / -inf element", mmax, DATA),
+        &format!("every array of length 1..={} over {:?} at offsets 0, 1e3, 1e6, 1e9, 1e12, 1e15, f64 and f32, strides {{1,-2}}: central_moments(p)[k] vs central_moment(k) bit for bit for every k <= p, p = 0..=10; every 4th data set contains one NaN / +inf / -inf element", mmax, DATA),
         mcases,
         |c, lx| {
             lx.nontrivial(c.digits.len() >= 2);
@@ -542,7 +560,7 @@ fn main() {
         let d = shape.len();
         for axis in 0..d {
             for l in all_layouts(d, &[1, 2, -1, -2]) {
-                for fill in 0..(if thorough { 8 } else { 4 }) {
+                for fill in 0..(if thorough { 10 } else { 7 }) {
                     acases.push(ACase { shape: shape.clone(), axis, layout: l.clone(), fill });
                 }
             }
@@ -550,7 +568,7 @@ fn main() {
     }
     rep.run_sub(
         "axis-forms-vs-lane-routine",
-        "shapes (2,3), (3,2), (3,2,2), (2,2,3) x every axis x all layouts x fills: weighted_sum_axis / weighted_mean_axis (i64: exact equality; f64: within twice the summation bound) and weighted_var_axis / weighted_std_axis (ddof 0, 1) vs the whole-array routine applied to each lane",
+        "shapes (2,3), (3,2), (3,2,2), (2,2,3) x every axis x all layouts x fills: weighted_sum_axis / weighted_mean_axis (i64: exact equality; f64: within twice the summation bound) and weighted_var_axis / weighted_std_axis (ddof 0, 1) vs the whole-array routine applied to each lane; special fills: a negative weight, +inf / NaN observations on an exactly-zero weight",
         acases.into_iter(),
         |c, lx| {
             lx.nontrivial(true);
